@@ -435,7 +435,29 @@ def rule_r10(ctx):
     c11.rule_r2(ctx, rid="C04.R10")
 
 
-RULES = [rule_r1, rule_r2, rule_r3, rule_r4, rule_r5, rule_r6, rule_r7, rule_r8, rule_r9, rule_r10]
+def rule_r11(ctx, rid="C04.R11"):
+    ctx.r.rule(rid, "line terminators between pipelined requests are not a request: in the head phase the parser marks itself completed only after parse_header ran (a request line was cracked or an error set) or after marking itself empty - the channel queues every completed parser that is not empty, and a parser with neither a head nor the mark would be executed and answered")
+    p = ctx.p
+    f = p.func("parser.HTTPRequestParser.received")
+    g = cfg_of(f)
+    stores = [n for n in g.nodes if n.kind == "stmt" and isinstance(n.ast, ast.Assign) and any(dotted(t) == "self.completed" for t in n.ast.targets) and isinstance(n.ast.value, ast.Constant) and n.ast.value.value is True]
+    parses = [n for n, c in find_calls(g, lambda c: dotted(c.func) == "self.parse_header")]
+    parses += [h for h in g.nodes if h.kind == "handler"]  # entered only from the try around parse_header
+    empt = [n for n in g.nodes if n.kind == "stmt" and isinstance(n.ast, ast.Assign) and any(dotted(t) == "self.empty" for t in n.ast.targets) and isinstance(n.ast.value, ast.Constant) and n.ast.value.value is True]
+    body = [b for b in g.nodes if b.kind == "branch" and isinstance(b.ast, ast.Compare) and dotted(b.ast.left) in ("br", "self.body_rcv") and isinstance(b.ast.comparators[0], ast.Constant) and b.ast.comparators[0].value is None
+            and ((isinstance(b.ast.ops[0], ast.Is) and not b.polarity) or (isinstance(b.ast.ops[0], ast.IsNot) and b.polarity))]
+    if not body:
+        raise AnalysisError("anchor vanished: the head/body phase test of HTTPRequestParser.received")
+    ctx.r.floor(rid, len(stores), 5, "completed = True stores in HTTPRequestParser.received")
+    for n in stores:
+        pth = g.path(g.entry, n, avoid=parses + empt + body, follow_exc=False)
+        if pth is None:
+            ctx.r.ok(rid, "completed only after a parsed head, an empty mark, or in the body phase", f.loc(n.ast))
+        else:
+            ctx.r.violation(rid, key_of(f, None, "completed-without-head"), "the parser can mark itself completed with neither a parsed head nor the empty mark (%s): stray line terminators are queued as a request, executed and answered" % g.describe_path(pth), f.loc(n.ast))
+
+
+RULES = [rule_r1, rule_r2, rule_r3, rule_r4, rule_r5, rule_r6, rule_r7, rule_r8, rule_r9, rule_r10, rule_r11]
 
 from ..selftest import M, T, V  # noqa: E402
 
